@@ -4,31 +4,38 @@ import numpy as np
 import vlib
 from vlib import cz, czl, tolq
 
-LEVEL_TEXT = ("Coq theorems (abstract ordered field with conjugation, every N, P, Q, lag) about the model of ma/arma_estimate/"
-              "arma2psd and the six AR/MA/ARMA class pipelines: exactly P and Q coefficients; for P = Q the sequence handed to "
-              "the covariance method is [r_1..r_lag] and its normal equations are those of the modified Yule-Walker system over "
-              "lags Q+1..lag; the residual handed to ma is x*[1,a] on n = P..N-1; ma = Yule-Walker of the long-AR polynomial with "
-              "rho > 0 (Yule-Walker positivity: N*P_m is a sum of squared moduli); stored psd = c*(rho/sampling)*|B|^2/|A|^2 of the "
-              "stored ar/ma/rho.  Tie: exact in-Coq correspondence on low-bit dyadic data (ma, arma_estimate incl. every error "
-              "branch, class PSDs on the exact grids NFFT in {1,2,4}), a fail-closed AST extraction of the six __call__ bodies, and a "
-              "property-directed search on the implementation with independent oracles.")
+LEVEL_TEXT = ("Coq theorems (abstract field with conjugation, ordered where an order clause is stated; every N, P, Q, lag, NFFT) about the "
+              "model of ma / arma_estimate / arma2psd and the six AR/MA/ARMA class pipelines: exactly P and Q coefficients; the exact "
+              "argument set on which arma_estimate returns; for P = Q the sequence handed to the covariance method is [r_1..r_lag] "
+              "(unbiased lags) and its normal equations are those of the modified Yule-Walker system over lags Q+1..lag; the residual "
+              "handed to ma is x*[1,a] on n = P..N-1; ma = Yule-Walker of the long-AR polynomial with rho > 0 and |k| < 1 at every stage "
+              "(N*P_m is a sum of squared moduli); stored psd = c*(rho/sampling)*|B|^2/|A|^2 of the stored ar/ma/rho. Tie: the same "
+              "Gallina term run inside Coq on dyadic inputs at QcC (exact; every error branch), BigQ Gaussian rationals (exact) and "
+              "binary64 (deep chained cases), class PSDs exactly on the grids NFFT in {1,2,4}, a fail-closed AST extraction of the six "
+              "__call__ bodies, and a property-directed search on the implementation with independent oracles.")
 TRUSTED = ["Coq 8.16.1 kernel + vm_compute",
            "hand-written model coq/Model/ArmaEst.v (tie = correspondence run + AST extraction of the class pipelines)",
            "arcovar_marple / arcovar (scipy lstsq) enter the model as oracles that satisfy the normal equations of the covariance "
            "method; the correspondence run instantiates them with exact elimination on the normal equations and checks, inside Coq "
-           "and with zero tolerance, that this instance meets the hypothesis on every case",
+           "and with zero tolerance, that this instance meets the hypothesis on every exact case",
+           "Bignums BigQ (Instances/BigQC_C15.v) and PrimFloat binary64 are used only to execute the model term in the correspondence "
+           "run; the theorems are applied to QcC (Laws + OrdLaws proved)",
            "numpy.fft enters as a twiddle character (Theory/Dft.v); 2*pi enters as a symbol",
            "Python harness (snapshot, generators, float->dyadic conversion, numpy.roots / numpy.linalg in the search oracles)"]
-UNPROVED = ["MA zeros strictly inside the unit circle (root location): search only (numpy.roots)",
+UNPROVED = ["MA zeros strictly inside the unit circle: proved up to '|k| < 1 at every stage of the Yule-Walker run'; the Schur-Cohn step "
+            "(root location) is search only (numpy.roots)",
             "strict positivity / finiteness of the class PSDs (A has no zero on the grid): search only",
             "rho > 0 of arma_estimate is proved under the hypothesis that the filtered residual is not identically zero",
             "that Marple's fast recursion (arcovar_marple) and scipy lstsq return a solution of the normal equations: oracle hypothesis, "
-            "checked by correspondence and by the normal-equation residual in the search"]
+            "checked by correspondence and by the normal-equation residual in the search",
+            "on part of the stated domain the code does not return a model (lag < P, lag = P > 4, lag >= N raise; P <= lag < 2P <= 8 can "
+            "give NaN): arma_returns_iff gives the exact set; the search reports these inputs as violations with their own keys"]
 ASSUMPTIONS = ["exact arithmetic in the theorems", "non-degenerate data as in the property statement (full-rank covariance system for the "
                "value comparison; the normal-equation clause is checked also when it is under-determined)"]
-RULE = ("exact in Coq: real/complex integer data N<=24, P,Q<=3 (a few P=5), all error branches with P<=7; search: noise-like and "
-        "ARMA-generated real/complex data N=16..256, (P,Q,lag) in the stated domain, NFFT even/odd, sampling in {1,0.5,2,100,44100}; "
-        "non-trivial = P+Q>=2 and returned normally")
+RULE = ("in Coq: real/complex integer data; ma N<=20, Q<=3, M<=7 (QcC); arma_estimate all error branches P<=7 and small returned cases (QcC), "
+        "N<=20, P<=3, Q<=2 (Q=3 real) exactly (BigQ), N<=24, P<=3 and P=5, Q<=3 (binary64); class pipelines N<=20, orders<=3, NFFT in {1,2,4}; "
+        "search: noise-like, ARMA-generated, integer and rescaled real/complex data N=16..256, (P,Q,lag) in the stated domain (lag>=2P stream "
+        "and the lag<2P / lag>=N streams), NFFT even/odd/default, sampling in {1,0.5,2,100,44100}; non-trivial = P+Q>=2 and returned normally")
 
 PRE = """Require Import Spectrum.Theory.Ops Spectrum.Theory.Vec Spectrum.Theory.Dft Spectrum.Model.Levinson Spectrum.Model.Corr
                Spectrum.Model.ArmaEst Spectrum.Instances.QcC Spectrum.Instances.QcCTw.
@@ -511,7 +518,7 @@ def run(ctx):
 
     # ---------------- correspondence: ma
     cases = []; meta = []
-    n = ctx.q(50, 300)
+    n = ctx.q(50, 500)
     while len(cases) < n:
         cplx = bool(rng.integers(0, 2)); N = int(rng.integers(3, 21))
         mode = rng.choice(['ok', 'ok', 'ok', 'err'])
@@ -551,7 +558,7 @@ def run(ctx):
         if rc != 0:
             ctx.broken.append({'theorem': 'build:' + tgt, 'where': tgt, 'log': log[-1500:]})
     streams = {'qcc': ([], []), 'bigq': ([], []), 'float': ([], [])}
-    want = {'qcc': ctx.q(36, 150), 'bigq': ctx.q(24, 120), 'float': ctx.q(40, 300)}
+    want = {'qcc': ctx.q(36, 250), 'bigq': ctx.q(24, 250), 'float': ctx.q(40, 600)}
     guard = 0
     while any(len(streams[k][0]) < want[k] for k in want) and guard < 20000:
         guard += 1
@@ -573,6 +580,8 @@ def run(ctx):
                 N = int(rng.integers(10, 17 if cplx else 21)); P = int(rng.integers(0, 4)); Q = int(rng.integers(1, 3))
                 if not cplx and N <= 14 and rng.integers(0, 3) == 0:
                     Q = 3
+                elif rng.integers(0, 8) == 0:
+                    N = int(rng.integers(16, 21)); P = 5; Q = 1          # the lstsq branch, exactly
             else:
                 N = int(rng.integers(10, 25)); P = 5 if rng.integers(0, 6) == 0 else int(rng.integers(0, 4)); Q = int(rng.integers(1, 4))
             lo = max(2 * P, Q, 1); hi = min(N - 2 * P + Q, N - 1, lo + 8)
@@ -615,7 +624,7 @@ def run(ctx):
     lap('corr_arma')
     # ---------------- correspondence: class pipelines on the exact grids
     cases = []; meta = []
-    n = ctx.q(60, 300)
+    n = ctx.q(60, 500)
     twopi = 2 * np.pi
     while len(cases) < n:
         ci = int(rng.integers(0, 6)); name = CLASSES[ci]
@@ -669,7 +678,7 @@ def run(ctx):
                 ctx.violation(key, what, rep)
 
     styles = ['noise', 'arma', 'arma', 'int', 'scaled']
-    for it in range(ctx.q(700, 6000)):
+    for it in range(ctx.q(700, 12000)):
         cplx = bool(rng.integers(0, 2)); tag = 'complex' if cplx else 'real'
         N = int(rng.integers(16, ctx.q(129, 257))); style = str(rng.choice(styles))
         x = gen_data(rng, N, cplx, style)
@@ -728,7 +737,7 @@ def run(ctx):
 
     lap('search')
     # ---------------- the rest of the stated domain: fewer modified Yule-Walker equations than unknowns (lag < 2P)
-    for it in range(ctx.q(150, 1000)):
+    for it in range(ctx.q(150, 2000)):
         cplx = bool(rng.integers(0, 2)); tag = 'complex' if cplx else 'real'
         N = int(rng.integers(16, 65)); P = int(rng.integers(1, 9)); Q = int(rng.integers(1, 6))
         if it % 10 == 9:
